@@ -52,6 +52,18 @@ func (tr *Tr) evalCall(env *CEnv, x *CCall) (Value, types.Type) {
 				return Sc{T: sIte(sLe(a, b), a, b)}, nil
 			}
 			return Sc{T: sIte(sLe(b, a), a, b)}, nil
+		case "elem":
+			// elem(s, p): the element at absolute backing-array position p (use with s.off <= p < s.off + len(s));
+			// quantifying over absolute positions gives the solver a trigger that matches every access to the array.
+			v, t := tr.evalC(env, x.Args[0])
+			sl := tr.asSl(tr.rval(env, v, t))
+			pos := tr.evalInt(env, x.Args[1])
+			et := t.Underlying().(*types.Slice).Elem()
+			l := Loc{Kind: LElem, Prefix: elemPrefix(et), Ref: sl.Arr, Idx: pos}
+			if kindOf(et) == kStruct {
+				return LocV{L: l, Typ: et}, et
+			}
+			return tr.loadAt(env.st, l, et), et
 		case "sumsize":
 			v, t := tr.evalC(env, x.Args[0])
 			sl := tr.asSl(tr.rval(env, v, t))
@@ -254,7 +266,11 @@ func (tr *Tr) evalGoCall(env *CEnv, f *ssa.Function, recv *EV, argEs []CExpr) (V
 	st.guard = "true"
 	// contracts of pure functions may be used instead of the body
 	key := tr.g.funcKey(f)
-	if fc := tr.g.contracts.Funcs[key]; fc != nil && fc.Pure && !fc.Inline && len(fc.Ensures) > 0 {
+	anyBound := false
+	for _, a := range args {
+		anyBound = anyBound || hasBound(a)
+	}
+	if fc := tr.g.contracts.Funcs[key]; fc != nil && fc.Pure && !fc.Inline && len(fc.Ensures) > 0 && !anyBound {
 		v := tr.callContract(key, fc, f, f.Signature, nil, args, f.Signature.Results(), st)
 		return v, resT
 	}
